@@ -300,14 +300,16 @@ def prepare_trace(raw_lines, died_eps, aborted_eps):
         for l in lines:
             if l["e"] == "spawn":
                 spawn[l["b"]].append(l["c"])
+        returned = {l["b"] for l in lines if l["e"] == "sent"}
         cur = []
         for l in lines:
             e = l["e"]
-            if e == "spawn":
+            if e in ("spawn", "sent"):
                 continue
             if e == "send":
+                # a Send that was cut off by the death of the process may have logged only some of its spawns
                 cur.append(dict(l, e="block"))
-                cur.append(dict(l, e="bspawn", targets=sorted(spawn[l["b"]])))
+                cur.append(dict(l, e="bspawn", targets=sorted(spawn[l["b"]]), ok=(l["b"] in returned or ended)))
                 continue
             if e == "dend":
                 if (l["c"], l["b"]) in delivered or not ended:
